@@ -169,10 +169,10 @@ func (r *SparseReal32Matrix) MdivM(a, b ConstMatrix) Matrix {
     for j := 0; j < m; j++ {
       c1 := a.ConstAt(i, j)
       c2 := b.ConstAt(i, j)
-      if c1.GetFloat32() != float32(0) || c2.GetFloat32() == float32(0) {
+      if !isNullScalar(c1) || c2.GetFloat32() == float32(0) {
         r.At(i, j).Div(c1, c2)
       } else {
-        if r.ConstAt(i, j).GetFloat32() != 0.0 {
+        if !isNullScalar(r.ConstAt(i, j)) {
           r.At(i, j).Reset()
         }
       }
